@@ -23,14 +23,15 @@ CONSTANTS MaxEp,          \* spa objects (connection attempts) per behaviour
           MaxReset,       \* user resets
           MaxNet,         \* network health changes
           MaxBg,          \* runtime error events injected by background tasks
-          HasId,          \* spa identifier configured (the pump connects by itself)
+          HasId,          \* spa identifier (and name) configured from the start (the pump connects by itself)
           KF_PumpDies,    \* D8: a reset during CONNECTING makes connect() raise, the pump task dies
           KF_LateComplete,\* D18: a reset in the last poll of the handshake still completes it -> SPA_READY without a spa
           KF_NotFound,    \* D9: ERROR_SPA_NOT_FOUND is terminal
           Unreliable,     \* TRUE: under net = "bad" individual requests may still succeed (lossy phases); FALSE: blackout
           AllowExit,      \* the context may be left (C10); FALSE for the liveness configurations
           KF_Overtake,    \* D10: pump actions between reset head and reset tail (suspended handler)
-          MaxSockFail     \* endpoint creations that raise OSError (a locate / connect phase that raises)
+          MaxSockFail,    \* endpoint creations that raise OSError (a locate / connect phase that raises)
+          MaxRF           \* GeckoConstants.MAX_RF_ERRORS_BEFORE_HALT: RF errors a connection tolerates
 
 Eps == 1..MaxEp
 PUMP == <<"PUMP", 0>>
@@ -42,10 +43,10 @@ Tasks == {PUMP, USER, LOC, MAIN} \cup { <<"PING", e>> : e \in Eps } \cup { <<"BG
 Errs == {"ERR_PING", "ERR_RF", "NEEDS_ATT"}
 
 VARIABLES st, descr, facade, spa, sensor, spaConn, spaOpen, epOpen, spaTasks, facTask, locEp, locTasks,
-          announced, locBr, connBr, kf, net, nNet, nSusp, nReset, nBg, nFail, running, todo, alive, dying, last,
+          announced, locBr, connBr, kf, net, nNet, nSusp, nReset, nBg, nFail, rfc, hasId, running, todo, alive, dying, last,
           nextEp, nextFac, found, exited, fresh
 vars == <<st, descr, facade, spa, sensor, spaConn, spaOpen, epOpen, spaTasks, facTask, locEp, locTasks,
-          announced, locBr, connBr, kf, net, nNet, nSusp, nReset, nBg, nFail, running, todo, alive, dying, last,
+          announced, locBr, connBr, kf, net, nNet, nSusp, nReset, nBg, nFail, rfc, hasId, running, todo, alive, dying, last,
           nextEp, nextFac, found, exited, fresh>>
 
 \* ---------------------------------------------------------------- frames
@@ -65,7 +66,7 @@ Init ==
   /\ st = "IDLE" /\ descr = "none" /\ facade = 0 /\ spa = 0 /\ sensor = "absent"
   /\ spaConn = [e \in Eps |-> FALSE] /\ spaOpen = [e \in Eps |-> FALSE] /\ epOpen = [e \in Eps |-> FALSE]
   /\ spaTasks = [e \in Eps |-> FALSE] /\ facTask = FALSE /\ locEp = FALSE /\ locTasks = FALSE
-  /\ announced = FALSE /\ locBr = 0 /\ connBr = 0 /\ kf = {} /\ net = "ok" /\ nNet = 0 /\ nSusp = 0 /\ nReset = 0 /\ nBg = 0 /\ nFail = 0
+  /\ announced = FALSE /\ locBr = 0 /\ connBr = 0 /\ kf = {} /\ net = "ok" /\ nNet = 0 /\ nSusp = 0 /\ nReset = 0 /\ nBg = 0 /\ nFail = 0 /\ rfc = [e \in Eps |-> 0] /\ hasId = HasId
   /\ running = None
   /\ todo = [t \in Tasks |-> IF t = PUMP THEN <<R("SPA_MAN_ENTER"), F("pumpTop")>> ELSE <<>>]
   /\ alive = [t \in Tasks |-> t = PUMP] /\ dying = [t \in Tasks |-> FALSE]
@@ -115,7 +116,7 @@ StepRaise(t) ==
   LET fr == Head(todo[t])  ev == fr.ev  mk(e) == IF fr.fin THEN DF(e) ELSE D(e) IN
   /\ fr.f = "raise"
   /\ running' = t
-  /\ IF sensor = "absent" /\ ev # "HAS_STATUS_SENSOR"
+  /\ IF sensor = "absent" /\ hasId /\ ev # "HAS_STATUS_SENSOR"
      THEN \* first event: the status sensor is created and announced before anything else
           /\ sensor' = "Unknown"
           /\ Push(t, <<[R("HAS_STATUS_SENSOR") EXCEPT !.fin = fr.fin], fr>>)
@@ -125,7 +126,7 @@ StepRaise(t) ==
      ELSE /\ st' = PreState(ev)
           /\ Push(t, WithFin(Nested(ev), fr.fin) \o <<mk(ev)>>)
           /\ UNCHANGED <<sensor, announced>>
-  /\ UNCHANGED <<descr, facade, spa, kf, net, nNet, nSusp, nReset, nBg, nFail, alive, dying, last, nextEp, nextFac, found,
+  /\ UNCHANGED <<descr, facade, spa, kf, net, nNet, nSusp, nReset, nBg, nFail, rfc, hasId, alive, dying, last, nextEp, nextFac, found,
                  exited, locBr, connBr>> /\ UNCH_RES
 
 StepDeliver(t) ==
@@ -140,14 +141,14 @@ StepDeliver(t) ==
               sensor |-> (IF sensor = "absent" THEN sensor ELSE Text(st)), by |-> t, ann |-> announced',
               prevann |-> announced, prevst |-> last.st, leak |-> FALSE]
   /\ Pop(t)
-  /\ UNCHANGED <<st, descr, facade, spa, kf, net, nNet, nSusp, nReset, nBg, nFail, alive, dying, nextEp, nextFac, found, exited>>
+  /\ UNCHANGED <<st, descr, facade, spa, kf, net, nNet, nSusp, nReset, nBg, nFail, rfc, hasId, alive, dying, nextEp, nextFac, found, exited>>
   /\ UNCH_RES
 
 \* the client's handle_event really awaits: the delivering task is suspended in mid-sequence
 Suspend(t) ==
   /\ running = t /\ last.by = t /\ fresh /\ nSusp < MaxSusp /\ todo[t] # <<>>
   /\ running' = None /\ nSusp' = nSusp + 1 /\ fresh' = FALSE
-  /\ UNCHANGED <<st, descr, facade, spa, sensor, announced, locBr, connBr, kf, net, nNet, nReset, nBg, nFail, todo, alive, dying,
+  /\ UNCHANGED <<st, descr, facade, spa, sensor, announced, locBr, connBr, kf, net, nNet, nReset, nBg, nFail, rfc, hasId, todo, alive, dying,
                  last, nextEp, nextFac, found, exited>> /\ UNCH_RES
 
 \* ---------------------------------------------------------------- reset (async_reset)
@@ -161,7 +162,7 @@ StepResetHead(t) ==
      THEN /\ spaConn' = [spaConn EXCEPT ![spa] = FALSE]
           /\ Push(t, <<R("SPA_DISCONNECTED"), [FA("resetTail", spa) EXCEPT !.ev = IF st = "CONNECTED" THEN "IDLE" ELSE st]>>)
      ELSE /\ Push(t, <<[FA("resetTail", 0) EXCEPT !.ev = st]>>) /\ UNCHANGED spaConn
-  /\ UNCHANGED <<st, spa, sensor, announced, locBr, connBr, kf, net, nNet, nSusp, nReset, nBg, nFail, alive, dying, last, nextEp, nextFac,
+  /\ UNCHANGED <<st, spa, sensor, announced, locBr, connBr, kf, net, nNet, nSusp, nReset, nBg, nFail, rfc, hasId, alive, dying, last, nextEp, nextFac,
                  found, exited, spaOpen, epOpen, spaTasks, locEp, locTasks>>
 
 \* the rest of spa.disconnect() and of async_reset, after the DISCONNECTED delivery returned
@@ -181,7 +182,7 @@ StepResetTail(t) ==
   /\ kf' = IF KF_Overtake /\ (spa # obj \/ st # Head(todo[t]).ev \/ facade # 0 \/ descr # "none")
            THEN kf \cup {"Overtake"} ELSE kf
   /\ Pop(t)
-  /\ UNCHANGED <<descr, facade, sensor, announced, locBr, connBr, net, nNet, nSusp, nReset, nBg, nFail, last, nextEp, nextFac, found,
+  /\ UNCHANGED <<descr, facade, sensor, announced, locBr, connBr, net, nNet, nSusp, nReset, nBg, nFail, rfc, hasId, last, nextEp, nextFac, found,
                  exited, spaConn, epOpen, facTask, locEp, locTasks>>
 
 \* ---------------------------------------------------------------- sequence pump
@@ -191,7 +192,7 @@ Unwind(sq) == OnlyFinally(sq) \o <<F("pumpSleep")>>
 PumpBody(t, fail) ==
   LET fr == Head(todo[t]) IN
   /\ t = PUMP /\ fr.f \in {"pumpTop", "pumpIf2", "pumpSleep", "locNew", "locWait", "locDone", "connIf", "spaNew", "hs", "hsDone", "facadeIf", "die"}
-  /\ nFail' = IF fail THEN nFail + 1 ELSE nFail
+  /\ nFail' = (IF fail THEN nFail + 1 ELSE nFail) /\ UNCHANGED <<rfc, hasId>>
   /\ CASE fr.f = "pumpTop" ->
             /\ running' = t
             /\ IF st = "IDLE" /\ descr = "none"
@@ -200,7 +201,7 @@ PumpBody(t, fail) ==
             /\ UNCHANGED <<descr, facade, spa, spaConn, spaOpen, epOpen, spaTasks, facTask, locEp, locTasks, alive, dying, nextEp, nextFac, found, kf>>
        [] fr.f = "pumpIf2" ->
             /\ running' = t
-            /\ IF st = "LOCATED" /\ HasId /\ facade = 0
+            /\ IF st = "LOCATED" /\ hasId /\ facade = 0
                THEN Push(t, <<R("LOCATING_STARTED"), F("locNew"), F("locWait"), F("locDone"), RF("LOCATING_FINISHED"), F("connIf"), F("pumpSleep")>>)
                ELSE Push(t, <<F("pumpSleep")>>)
             /\ UNCHANGED <<descr, facade, spa, spaConn, spaOpen, epOpen, spaTasks, facTask, locEp, locTasks, alive, dying, nextEp, nextFac, found, kf>>
@@ -322,7 +323,7 @@ StepLoc ==
   /\ alive[LOC] /\ locTasks /\ (net = "ok" \/ Unreliable) /\ ~found /\ running = None /\ todo[LOC] = <<>>
   /\ found' = TRUE
   /\ todo' = [todo EXCEPT ![LOC] = <<R("LOCATING_DISCOVERED")>>]
-  /\ UNCHANGED <<st, descr, facade, spa, sensor, announced, locBr, connBr, kf, net, nNet, nSusp, nReset, nBg, nFail, running, alive, dying,
+  /\ UNCHANGED <<st, descr, facade, spa, sensor, announced, locBr, connBr, kf, net, nNet, nSusp, nReset, nBg, nFail, rfc, hasId, running, alive, dying,
                  last, nextEp, nextFac, exited>> /\ UNCH_RES
 
 \* ---------------------------------------------------------------- ping loop and background tasks of a connection
@@ -339,20 +340,26 @@ StepPing(t) ==
                      \/ /\ (net = "bad" \/ Unreliable) /\ Push(t, <<R("PING_MISSED"), R("PING_NO_RESPONSE"), F("pingSleep")>>)
                   /\ UNCHANGED alive
      ELSE /\ running' = None /\ Push(t, <<F("pingReq")>>) /\ UNCHANGED alive
-  /\ UNCHANGED <<st, descr, facade, spa, sensor, announced, locBr, connBr, kf, net, nNet, nSusp, nReset, nBg, nFail, dying, last, nextEp,
+  /\ UNCHANGED <<st, descr, facade, spa, sensor, announced, locBr, connBr, kf, net, nNet, nSusp, nReset, nBg, nFail, rfc, hasId, dying, last, nextEp,
                  nextFac, found, exited>> /\ UNCH_RES
 
 \* the refresh loop reports a failed status-block request as RETRY_EXCEEDED and then goes on to the channel
-\* request, whose failure it reports with the CONNECTION_ flavour of the event (async_spa._refresh_loop)
-BgEvents == {"RF_ERROR", "TOO_MANY_RF", "RETRY_EXCEEDED", "CONN_RETRY_EXCEEDED", "PACK_REFRESHED"}
+\* request, whose failure it reports with the CONNECTION_ flavour of the event (async_spa._refresh_loop).
+\* The RF-error consumer counts the RFERR datagrams of its connection (the count is never reset): every one is
+\* reported as RF_ERROR and, once more than MaxRF have been counted, followed by TOO_MANY_RF from the same task.
+BgEvents == {"RF_ERROR", "RETRY_EXCEEDED", "CONN_RETRY_EXCEEDED", "PACK_REFRESHED"}
 StepBg(t) ==
   /\ t \in { <<"BG", e>> : e \in Eps } /\ Head(todo[t]).f = "bgIdle" /\ nBg < MaxBg
   /\ \E ev \in BgEvents :
        /\ (ev = "PACK_REFRESHED") => ((net = "ok" \/ Unreliable) /\ spaConn[t[2]])
        /\ (ev \in {"RETRY_EXCEEDED", "CONN_RETRY_EXCEEDED"}) => (net = "bad" \/ Unreliable)
-       /\ Push(t, <<R(ev), F("bgIdle")>>)
+       /\ IF ev = "RF_ERROR"
+          THEN LET n == IF rfc[t[2]] > MaxRF THEN rfc[t[2]] ELSE rfc[t[2]] + 1 IN
+               /\ rfc' = [rfc EXCEPT ![t[2]] = n]
+               /\ Push(t, <<R("RF_ERROR")>> \o (IF n > MaxRF THEN <<R("TOO_MANY_RF")>> ELSE <<>>) \o <<F("bgIdle")>>)
+          ELSE /\ Push(t, <<R(ev), F("bgIdle")>>) /\ UNCHANGED rfc
   /\ nBg' = nBg + 1 /\ running' = t
-  /\ UNCHANGED <<st, descr, facade, spa, sensor, announced, locBr, connBr, kf, net, nNet, nSusp, nReset, nFail, alive, dying, last, nextEp,
+  /\ UNCHANGED <<st, descr, facade, spa, sensor, announced, locBr, connBr, kf, net, nNet, nSusp, nReset, nFail, hasId, alive, dying, last, nextEp,
                  nextFac, found, exited>> /\ UNCH_RES
 
 \* a task whose frames are exhausted, or a dying (cancelled) task that has run its last frame
@@ -363,7 +370,7 @@ StepEnd(t) ==
   /\ alive' = IF dying[t] THEN [alive EXCEPT ![t] = FALSE] ELSE alive
   /\ dying' = [dying EXCEPT ![t] = FALSE]
   /\ todo' = IF dying[t] THEN [todo EXCEPT ![t] = <<>>] ELSE todo
-  /\ UNCHANGED <<st, descr, facade, spa, sensor, announced, locBr, connBr, kf, net, nNet, nSusp, nReset, nBg, nFail, last, nextEp, nextFac,
+  /\ UNCHANGED <<st, descr, facade, spa, sensor, announced, locBr, connBr, kf, net, nNet, nSusp, nReset, nBg, nFail, rfc, hasId, last, nextEp, nextFac,
                  found, exited>> /\ UNCH_RES
 
 \* ---------------------------------------------------------------- user and environment
@@ -373,14 +380,23 @@ UserReset ==
   /\ nReset' = nReset + 1
   /\ todo' = [todo EXCEPT ![USER] = ResetFrames \o <<F("resetReturn")>>]
   /\ alive' = [alive EXCEPT ![USER] = TRUE]
-  /\ UNCHANGED <<st, descr, facade, spa, sensor, announced, locBr, connBr, kf, net, nNet, nSusp, nBg, nFail, running, dying, last, nextEp,
+  /\ UNCHANGED <<st, descr, facade, spa, sensor, announced, locBr, connBr, kf, net, nNet, nSusp, nBg, nFail, rfc, hasId, running, dying, last, nextEp,
+                 nextFac, found, exited>> /\ UNCH_RES
+\* async_set_spa_info(address, identifier, name): the three attributes are stored, then async_reset
+UserSetInfo ==
+  /\ fresh' = FALSE
+  /\ nReset < MaxReset /\ todo[USER] = <<>> /\ running = None /\ ~exited
+  /\ nReset' = nReset + 1 /\ hasId' = TRUE
+  /\ todo' = [todo EXCEPT ![USER] = ResetFrames \o <<F("resetReturn")>>]
+  /\ alive' = [alive EXCEPT ![USER] = TRUE]
+  /\ UNCHANGED <<st, descr, facade, spa, sensor, announced, locBr, connBr, kf, net, nNet, nSusp, nBg, nFail, rfc, running, dying, last, nextEp,
                  nextFac, found, exited>> /\ UNCH_RES
 StepUserReturn(t) ==
   /\ t = USER /\ Head(todo[t]).f = "resetReturn"
   /\ running' = None /\ Pop(t) /\ alive' = [alive EXCEPT ![t] = FALSE]
   /\ last' = [last EXCEPT !.ev = "reset-returned", !.st = st, !.fac = facade, !.spa = spa, !.descr = descr, !.by = t,
                            !.leak = ((\E e \in Eps : spaTasks[e]) \/ facTask)]
-  /\ UNCHANGED <<st, descr, facade, spa, sensor, announced, locBr, connBr, kf, net, nNet, nSusp, nReset, nBg, nFail, dying, nextEp, nextFac,
+  /\ UNCHANGED <<st, descr, facade, spa, sensor, announced, locBr, connBr, kf, net, nNet, nSusp, nReset, nBg, nFail, rfc, hasId, dying, nextEp, nextFac,
                  found, exited>> /\ UNCH_RES
 \* leaving the manager's context: cancel the pump, announce, cancel and await everything
 Exit ==
@@ -390,7 +406,7 @@ Exit ==
   /\ todo' = [t \in Tasks |-> IF t = MAIN THEN <<R("SPA_MAN_EXIT"), F("gather")>>
                                ELSE IF t = PUMP THEN OnlyFinally(todo[t]) ELSE todo[t]]
   /\ dying' = [dying EXCEPT ![PUMP] = alive[PUMP]]
-  /\ UNCHANGED <<st, descr, facade, spa, sensor, announced, locBr, connBr, kf, net, nNet, nSusp, nReset, nBg, nFail, running, last,
+  /\ UNCHANGED <<st, descr, facade, spa, sensor, announced, locBr, connBr, kf, net, nNet, nSusp, nReset, nBg, nFail, rfc, hasId, running, last,
                  nextEp, nextFac, found, exited>> /\ UNCH_RES
 StepGather(t) ==
   /\ t = MAIN /\ Head(todo[t]).f \in {"gather", "gathered"}
@@ -405,14 +421,14 @@ StepGather(t) ==
           /\ running' = None /\ exited' = TRUE /\ Pop(t)
           /\ alive' = [x \in Tasks |-> FALSE] /\ dying' = [x \in Tasks |-> FALSE]
           /\ spaTasks' = [e \in Eps |-> FALSE] /\ facTask' = FALSE /\ locTasks' = FALSE
-  /\ UNCHANGED <<st, descr, facade, spa, sensor, announced, locBr, connBr, kf, net, nNet, nSusp, nReset, nBg, nFail, last, nextEp, nextFac,
+  /\ UNCHANGED <<st, descr, facade, spa, sensor, announced, locBr, connBr, kf, net, nNet, nSusp, nReset, nBg, nFail, rfc, hasId, last, nextEp, nextFac,
                  found, spaConn, spaOpen, epOpen, locEp>>
 
 NetChange ==
   /\ fresh' = FALSE
   /\ nNet < MaxNet /\ running = None
   /\ net' = (IF net = "ok" THEN "bad" ELSE "ok") /\ nNet' = nNet + 1
-  /\ UNCHANGED <<st, descr, facade, spa, sensor, announced, locBr, connBr, kf, nSusp, nReset, nBg, nFail, running, todo, alive, dying, last,
+  /\ UNCHANGED <<st, descr, facade, spa, sensor, announced, locBr, connBr, kf, nSusp, nReset, nBg, nFail, rfc, hasId, running, todo, alive, dying, last,
                  nextEp, nextFac, found, exited>> /\ UNCH_RES
 
 \* `fresh`: the last step of the running task was a delivery (the only point at which the client
@@ -422,7 +438,7 @@ TStep(t) == /\ CanRun(t)
                \/ ((StepRaise(t) \/ StepResetHead(t) \/ StepResetTail(t) \/ StepPump(t)
                      \/ StepPing(t) \/ StepBg(t) \/ StepUserReturn(t) \/ StepGather(t)) /\ fresh' = FALSE)
 Next == \/ \E t \in Tasks : TStep(t) \/ Suspend(t) \/ StepEnd(t)
-        \/ StepLoc \/ UserReset \/ NetChange \/ (AllowExit /\ Exit)
+        \/ StepLoc \/ UserReset \/ UserSetInfo \/ NetChange \/ (AllowExit /\ Exit)
 Spec == Init /\ [][Next]_vars
 LiveSpec == Spec /\ \A t \in Tasks : SF_vars(TStep(t) \/ StepEnd(t)) /\ SF_vars(StepLoc)
 
@@ -454,5 +470,5 @@ NoTaskLeakAfterReset == (last.ev = "reset-returned") => (~last.leak \/ Escaped)
 \* ---------------------------------------------------------------- properties (C09)
 PumpAlive == (alive[PUMP] \/ exited \/ alive[MAIN]) \/ ("PumpDies" \in kf)
 Quiet == nNet = MaxNet /\ nReset = MaxReset /\ nBg = MaxBg /\ net = "ok"
-Heals == (Quiet /\ HasId) ~> (st = "CONNECTED" \/ Escaped \/ (KF_NotFound /\ st = "NOT_FOUND") \/ nextEp > MaxEp)
+Heals == (Quiet /\ hasId) ~> (st = "CONNECTED" \/ Escaped \/ (KF_NotFound /\ st = "NOT_FOUND") \/ nextEp > MaxEp)
 ===============================================================================
